@@ -21,6 +21,44 @@ func (c *FnCtx) chanInit(st *State, r Term, size Term) {
 	set("chan$closed", SBool, TFalse)
 	set("chan$sent", SInt, IntLit(0))
 	set("chan$recvd", SInt, IntLit(0))
+	set("chan$esc", SBool, TFalse)
+}
+
+// escapeChan: a channel value leaves the function's sight (boxed into an interface, passed to
+// a call or a goroutine, stored in memory, sent over a channel): from then on code outside the
+// function may send on it, receive from it or close it at any time.
+func (c *FnCtx) escapeChan(st *State, v SV, t types.Type) {
+	if t == nil {
+		return
+	}
+	if _, ok := t.Underlying().(*types.Chan); !ok {
+		return
+	}
+	sc, ok := v.(Sc)
+	if !ok {
+		return
+	}
+	c.chanSet(st, "chan$esc", SBool, sc.T, TTrue)
+}
+
+// envActs: before an operation on channel ch in a sequential function (no interference
+// invariant), an escaped channel is in an arbitrary state allowed by its capacity; closed stays
+// closed. Without this a receive on a channel created here and handed to a dependency (the WARC
+// feedback channel) could never complete in the model and everything after it was dead code.
+func (c *FnCtx) envActs(st *State, ch Term) {
+	if c.og != nil && c.og.inv != nil {
+		return
+	}
+	esc := c.chanField(st, "chan$esc", SBool, ch)
+	if esc.IsFalse() {
+		return
+	}
+	l := c.chanField(st, "chan$len", SInt, ch)
+	cl := c.chanField(st, "chan$closed", SBool, ch)
+	nl := c.vc.Fresh("env$len", SInt)
+	ncl := c.vc.Fresh("env$closed", SBool)
+	c.chanSet(st, "chan$len", SInt, ch, c.vc.Name("envlen", Ite(esc, nl, l)))
+	c.chanSet(st, "chan$closed", SBool, ch, c.vc.Name("envcl", Ite(esc, Or(cl, ncl), cl)))
 }
 
 func (c *FnCtx) chanField(st *State, name string, s Sort, ch Term) Term {
@@ -84,6 +122,8 @@ func (c *FnCtx) chanSend(fr *Frame, st *State, x *ssa.Send) {
 	c.callSiteAsserts(fr, st, x)
 	key := c.opKeyOf(fr, x)
 	c.ogBefore(fr, st, key)
+	c.escapeChan(st, c.val(fr, st, x.X), x.X.Type())
+	c.envActs(st, ch)
 	c.chanFacts(st, ch)
 	c.safety("closed", st, Not(c.chanField(st, "chan$closed", SBool, ch)))
 	en := c.sendEnabled(st, ch)
@@ -100,6 +140,7 @@ func (c *FnCtx) chanRecv(fr *Frame, st *State, x *ssa.UnOp) SV {
 	key := c.opKeyOf(fr, x)
 	c.callSiteAsserts(fr, st, x)
 	c.ogBefore(fr, st, key)
+	c.envActs(st, ch)
 	c.chanFacts(st, ch)
 	en := c.recvEnabled(st, ch)
 	c.nonblock(fr, st, key, en)
@@ -132,6 +173,7 @@ func (c *FnCtx) selectOp(fr *Frame, st *State, x *ssa.Select) SV {
 	var afterKeys []string
 	for i, s := range x.States {
 		ch := c.term(fr, st, s.Chan)
+		c.envActs(st, ch)
 		c.chanFacts(st, ch)
 		chosen := Eq(idx, IntLit(int64(i)))
 		ck := c.caseKeyOf(fr, x, i)
